@@ -121,22 +121,16 @@ def step (d : D) (line : String) : D × String :=
   | ["xcopy", h] =>          -- the node at `h` of the first buffer is copy-constructed in the second
     match h.toNat? with
     | some h =>
-      match (findObj d.s h).bind (·.cls) with
-      | none => (d, "bad-op")
-      | some c =>
-        match xcopy d.u d.s xfuel d.x h c with
-        | some (x', o) => ({ d with x := x' }, s!"obj {o} {showState d.u x'}")
-        | none => (d, s!"obj - {showState d.u d.x}")
+      match xcopyAt d.u xfuel d.s d.x h with
+      | some (x', o) => ({ d with x := x' }, s!"obj {o} {showState d.u x'}")
+      | none => (d, s!"obj - {showState d.u d.x}")
     | none => (d, "bad-op")
   | ["xback", h] =>          -- the node at `h` of the second buffer is copy-constructed in the first
     match h.toNat? with
     | some h =>
-      match (findObj d.x h).bind (·.cls) with
-      | none => (d, "bad-op")
-      | some c =>
-        match xcopy d.u d.x xfuel d.s h c with
-        | some (s', o) => ({ d with s := s' }, s!"obj {o} {showState d.u s'}")
-        | none => (d, s!"obj - {showState d.u d.s}")
+      match xcopyAt d.u xfuel d.x d.s h with
+      | some (s', o) => ({ d with s := s' }, s!"obj {o} {showState d.u s'}")
+      | none => (d, s!"obj - {showState d.u d.s}")
     | none => (d, "bad-op")
   | ["dump"] => (d, s!"mem {hexOf d.s.b.mem}")
   | _ => (d, "bad-op")
